@@ -965,6 +965,63 @@ def check_r9(facts, rep, crate):
     rep.floor(rid, "length observers", n, 3)
 
 
+def check_r10_counts_used_as_given(facts, rep, crate):
+    """A caller-supplied count (`at`, `len`, `cnt`, an index) enters the chain arithmetic as it is: the only operations the mutators
+    apply to it are comparisons, min / max and adding / subtracting chunk lengths. A count that is masked, or-ed, shifted, scaled
+    or offset by a constant makes the operation act on a different position than the model's, for some arguments."""
+    rid = "C20.R10"
+    rep.rule(rid, "caller-supplied counts and indices are used as given: in the LongChain / CowBytes operations no bit operation, multiplication, "
+                  "division or constant offset is applied to a value derived from an integer parameter (only comparisons, min / max and +/- of "
+                  "chunk lengths)")
+    n = 0
+    for b in crate.bodies:
+        if "::tests::" in b.path or b.kind not in ("AssocFn", "Fn", "Closure"):
+            continue
+        ints = [i for i in range(1, b.argc + 1) if b.locals[i]["s"] in ("usize", "u32", "u64", "isize")]
+        if not ints or not ("pbuf" in b.file or b.file.endswith("cow-bytes/src/lib.rs")):
+            continue
+        n += 1
+        rep.analysed(b)
+        tr = Tracer(facts, b)
+        bad = None
+        for bi, blk in enumerate(b.blocks):
+            if blk["cleanup"] or bad:
+                continue
+            vals = [tr.rvalue(st["rv"]) for st in blk["stmts"] if st["k"] == "Assign"]
+            t = blk["term"]
+            if t["k"] == "Call":
+                vals += [tr.operand(a) for a in t["args"]]
+            for v in vals:
+                for x in walk(v):
+                    if x.kind != "bin":
+                        continue
+                    op = str(x[1])
+                    a_, d_ = strip(x[2]), strip(x[3])
+                    touches = any(y.kind == "param" and y[1] in ints for y in walk(x))
+                    if not touches:
+                        continue
+                    if op.startswith(("BitOr", "BitAnd", "BitXor", "Shl", "Shr", "Mul", "Div", "Rem")):
+                        bad = (bi, fmt(x)[:80])
+                    elif op.startswith(("Add", "Sub")):
+                        for side, other in ((a_, d_), (d_, a_)):
+                            cv = const_eval(side)
+                            if cv is not None and cv != 0 and any(y.kind == "param" and y[1] in ints for y in walk(other)):
+                                bad = (bi, fmt(x)[:80])
+                    if bad:
+                        break
+                if bad:
+                    break
+        where = "%s (%s)" % (loc_str(b.loc), b.path)
+        key = "counts-as-given/%s" % b.path.split("::{")[0]
+        if bad:
+            rep.bad(rid, key, "%s (%s)" % (loc_str(b.term(bad[0])["loc"]), b.path),
+                    "a caller-supplied count is not used as given: `%s` - for some arguments the operation splits / truncates / advances at a "
+                    "position other than the one requested (and the cached length no longer matches the chunks)" % bad[1])
+        else:
+            rep.ok(rid, key, where, "counts enter the arithmetic as given", nontrivial=False)
+    rep.floor(rid, "operations taking a count or index", n, 6)
+
+
 def check(facts, rep, tier, cfg):
     crate = facts.crate("cow_bytes")
     if crate is None:
@@ -979,6 +1036,7 @@ def check(facts, rep, tier, cfg):
     check_r7(facts, rep, crate)
     check_r8(facts, rep, crate)
     check_r9(facts, rep, crate)
+    check_r10_counts_used_as_given(facts, rep, crate)
     rep.rule("C20.S7", "no new process-wide mutable state (static cell / lock / once-cell) in the files this property is anchored in")
     import whomay
     whomay.check_new_statics(facts, rep, "C20.S7", "C20")
